@@ -36,12 +36,12 @@ def _is_num(v):
     return isinstance(v, (int, float)) and not isinstance(v, bool)
 
 
-def _eq(a, b):
-    """JSON equality with the bool/number confusion left open"""
+def _eq(a, b, depth=0):
+    """JSON equality: true / false are not the numbers 1 / 0 (inside a list or object value the confusion is left open)"""
     if isinstance(a, bool) != isinstance(b, bool):
         if _is_num(a) or _is_num(b):
-            if a == b:
-                raise Open("bool-number-equality")
+            if a == b and depth:
+                raise Open("bool-number-equality-inside-a-container")
         return False
     if isinstance(a, float) and math.isnan(a) or isinstance(b, float) and math.isnan(b):
         raise Open("nan")
@@ -49,8 +49,8 @@ def _eq(a, b):
         if type(a) is not type(b):
             return False
         if isinstance(a, list):
-            return len(a) == len(b) and all(_eq(x, y) for x, y in zip(a, b))
-        return set(a) == set(b) and all(_eq(a[k], b[k]) for k in a)
+            return len(a) == len(b) and all(_eq(x, y, depth + 1) for x, y in zip(a, b))
+        return set(a) == set(b) and all(_eq(a[k], b[k], depth + 1) for k in a)
     return a == b
 
 
@@ -62,8 +62,8 @@ def spec(claims: dict, options: dict, now, leeway):
     """-> ("ACCEPT", set()) | ("REJECT", acceptable error classes); raises Open"""
     bad = set()
     for name, opt in options.items():
-        if not opt:
-            raise Open("empty-option")
+        if opt is None:
+            raise Open("null-option")
         if opt.get("essential") and (name not in claims or claims[name] is None):
             bad.add("MissingClaimError")
     for name, val in claims.items():
@@ -245,7 +245,7 @@ def run_shard(ctx):
     for name in ("iss", "sub", "aud", "jti", "x", "validate"):
         for (ess, blank) in flags:
             for req in reqs:
-                for rv in ("a", 7, ["a"], True):
+                for rv in ("a", 7, ["a"], True, 1, 0, False, 1.0):
                     k += 1
                     if k % n != sh:
                         continue
